@@ -68,7 +68,7 @@ fn first_difference(a: &[Ev], b: &[Ev]) -> String {
 
 pub fn run(tier: &str, seed: u64, replay: Option<u64>, child_range: Option<(u64, u64)>) -> Report {
   let scale: u64 = (if tier == "thorough" { 30 } else { 1 }) * util::env_u64("PV_SCALE", 1);
-  let n: u64 = if tier == "miri" { 3 } else { 12_000 * scale };
+  let n: u64 = if tier == "miri" { 1 } else { 12_000 * scale };
   let mut total = Report::new();
   // ---- child mode: print digests of a range of cases, nothing else
   if let Some((a, b)) = child_range {
@@ -97,9 +97,11 @@ pub fn run(tier: &str, seed: u64, replay: Option<u64>, child_range: Option<(u64,
     let case = make_case(seed, i);
     let (d1, per1, n1, _) = digest_case(&case, false);
     // unrelated instances in between
-    let other = make_case(seed ^ 0x5EED, i + 1);
-    let _ = digest_case(&other, false);
-    let _ = digest_case(&make_case(seed ^ 0x5EED5, i + 2), false);
+    if tier != "miri" {
+      let other = make_case(seed ^ 0x5EED, i + 1);
+      let _ = digest_case(&other, false);
+      let _ = digest_case(&make_case(seed ^ 0x5EED5, i + 2), false);
+    }
     let (d2, per2, _, _) = digest_case(&case, false);
     rep.evaluations += 1;
     rep.add("in_process_replays", 1);
